@@ -110,24 +110,30 @@ void MEDDLY::binary_operation::compute(const dd_edge &ar1,
     const edge_value av = ar1.getEdgeValue();
     const edge_value bv = ar2.getEdgeValue();
     if (new_style) {
+        //
+        // Compute into temporaries: if the operation throws,
+        // res must still be what it was.
+        //
+        edge_value cv;
         node_handle resp;
         compute(resF->getMaxLevelIndex(), ~0,
                 av, ar1.getNode(),
                 bv, ar2.getNode(),
-                res.setEdgeValue(), resp);
-        res.set(resp);
+                cv, resp);
+        res.set(cv, resp);
     } else {
         computeDDEdge(ar1, ar2, res, true);
    }
 #else
     const edge_value av = ar1.getEdgeValue();
     const edge_value bv = ar2.getEdgeValue();
+    edge_value cv;
     node_handle resp;
     compute(resF->getMaxLevelIndex(), ~0,
             av, ar1.getNode(),
             bv, ar2.getNode(),
-            res.setEdgeValue(), resp);
-    res.set(resp);
+            cv, resp);
+    res.set(cv, resp);
 #endif
 #ifdef DEVELOPMENT_CODE
     resF->validateIncounts(true, __FILE__, __LINE__, getName());
@@ -151,11 +157,12 @@ void MEDDLY::binary_operation::computeTemp(const dd_edge &ar1,
         // (res may be one of the operands, see compute())
         const edge_value av = ar1.getEdgeValue();
         const edge_value bv = ar2.getEdgeValue();
+        edge_value cv;
         compute(toplevel, ~0,
                 av, ar1.getNode(),
                 bv, ar2.getNode(),
-                res.setEdgeValue(), resp);
-        res.set(resp);
+                cv, resp);
+        res.set(cv, resp);
     } else {
         computeDDEdge(ar1, ar2, res, false);
     }
